@@ -31,6 +31,10 @@ pub mod c11;
 pub mod c25;
 pub mod c28;
 pub mod c29;
+pub mod execkit;
+pub mod c26;
+pub mod c27;
+pub mod c33;
 pub mod util;
 
 pub type RunFn = fn(&mut Ctx);
@@ -65,6 +69,9 @@ pub const REGISTRY: &[(&str, RunFn, ReplayFn)] = &[
     ("C25", c25::run, c25::replay),
     ("C28", c28::run, c28::replay),
     ("C29", c29::run, c29::replay),
+    ("C26", c26::run, c26::replay),
+    ("C27", c27::run, c27::replay),
+    ("C33", c33::run, c33::replay),
 ];
 
 pub fn find(id: &str) -> Option<(RunFn, ReplayFn)> {
